@@ -43,7 +43,7 @@ def plan(tier):
         "exhaustive": True,
         "assumptions": ["register values are one file per run (registers pointing into RAM); operand FIELDS are covered per "
                         "decode leaf by pattern members, not every word of the leaf is stepped"],
-        "deadline_s": 170 if tier == "quick" else 1500,
+        "deadline_s": 400 if tier == "quick" else 1500,
     }
 
 
